@@ -216,7 +216,10 @@ def check_banner(res: Res, p: dict, r0, src0: str, rng: random.Random) -> None:
     for i in range(n):
         k = rng.choice(kinds)
         banner.append(f"; ${i:04x}: lda.w 0x{i:04x},x  {{" if k == ";" else f"/* entry {i} */" if k == "/*" else "")
-    at = rng.randint(0, len(lines) - 1)
+    # between two statements only: not inside the parentheses of an application written over several lines, not behind a line that a
+    # comma continues (the renderer's comment knobs keep to statement boundaries as well; a comment inside a statement is no claim of the property)
+    safe = [k for k in range(len(lines)) if sum(ln.count("(") - ln.count(")") for ln in lines[:k]) == 0 and (k == 0 or not lines[k - 1].rstrip().endswith((",", "(")))]
+    at = rng.choice(safe)
     depth = sum(ln.count("{") - ln.count("}") for ln in lines[:at])
     src1 = "\n".join(lines[:at] + banner + lines[at:])
     files = materialise(p)[1]
